@@ -14,6 +14,7 @@ from harness.common import Ck, REPO, coq_list, coq_str, parse_coq_N_list, parse_
 from harness import c06_util as U
 from translate import c06_vmf as T
 from translate import c06_prog as P
+from translate import c06_lite as L
 from translate import c01_kvser
 
 MANIFEST = dict(
@@ -73,7 +74,7 @@ def required_class(block: str, key: str, idx: int) -> str:
 
 IMPORTS = ['Coq.NArith.NArith', 'Coq.ZArith.ZArith', 'Coq.Lists.List', 'Coq.Strings.String', 'SV.KV.KvBase', 'SV.Fmt.VmfText',
            'SV.Fmt.VmfBlocks', 'SV.Gen.VmfTemplates_gen', 'SV.Gen.VmfKeys_gen', 'SV.Gen.VmfDispSizes_gen', 'SV.Gen.VmfOrder_gen',
-           'SV.Gen.VmfProg_gen', 'SV.Fmt.VmfFields', 'SV.Gen.VmfFieldsCfg_gen', 'SV.Fmt.VmfNum', 'SV.Gen.VmfNumFmt_gen', 'SV.Fmt.VmfGuard', 'SV.KV.KvSym', 'SV.Gen.KVSer_gen', 'SV.Props.C06']
+           'SV.Gen.VmfProg_gen', 'SV.Fmt.VmfFields', 'SV.Gen.VmfFieldsCfg_gen', 'SV.Fmt.VmfNum', 'SV.Gen.VmfNumFmt_gen', 'SV.Fmt.VmfGuard', 'SV.Fmt.VmfLite', 'SV.Gen.VmfLite_gen', 'SV.Fmt.VmfFlags', 'SV.Gen.VmfFlags_gen', 'SV.Fmt.VmfTok', 'SV.KV.KvSym', 'SV.Gen.KVSer_gen', 'SV.Props.C06']
 PRE = '''Import ListNotations. Open Scope string_scope.
 Fixpoint nl_eqb (a b : list N) : bool := match a, b with [], [] => true | x :: a', y :: b' => N.eqb x y && nl_eqb a' b' | _, _ => false end.
 Fixpoint bad_idx {A} (f : A -> bool) (n : N) (l : list A) : list N := match l with [] => [] | x :: r => (if f x then [] else [n]) ++ bad_idx f (n + 1)%N r end.
@@ -280,6 +281,103 @@ Fixpoint fxl_eqb (a b : list fixup) : bool := match a, b with [], [] => true
             ck.tie_broken.append(f'correspondence {name} (Fmt/VmfFields.v vs vmf.py)')
             ck.extra[f'{name}_disagreement'] = repr(cases[bad[0]])
     ck.sample({'output_parse_case(value, Output.parse)': repr(p_cases[3]), 'fixup_init_case(input, EntityFixup order)': repr(f_cases[3])})
+
+
+def corr_tokens(ck: Ck) -> None:
+    """parse_vec / uv_parse of Fmt/VmfTok.v against math.parse_vec_str and UVAxis.parse on generated texts (number tokens from
+    a pool with pairwise different values; brackets of all kinds, doubled and mismatched; extra white space; 2..6 tokens), and
+    vec_text / uv_text against str(Vec), str(Angle), str(UVAxis) (field order and punctuation of the written text)."""
+    from srctools.math import Vec, Angle, parse_vec_str, format_float
+    from srctools.vmf import UVAxis
+    pool = ['0', '1', '-1', '0.5', '-0.25', '16384', '1e+06', '-3.5e-05', '0.000001', '123456.789', '7', '2.5']
+    val = {float(t): t for t in pool}
+    assert len(val) == len(pool)
+    n = ck.budget(250, 1500)
+    v_cases, u_cases, t_cases = [], [], []
+    for _ in range(n):
+        k = ck.rng.choice([3, 3, 3, 3, 2, 4, 1])
+        toks = [ck.rng.choice(pool) for _ in range(k)]
+        sep = [ck.rng.choice([' ', ' ', ' ', '  ', '\t']) for _ in range(k)]
+        body = ''.join(t + s for t, s in zip(toks, sep))[:-len(sep[-1])]
+        o = ck.rng.choice(['', '', '(', '[', '{', '<', '((', ' ('])
+        c = ck.rng.choice(['', '', ')', ']', '}', '>', '))', ') '])
+        text = o + body + c
+        sentinel = object()
+        r = parse_vec_str(text, sentinel, sentinel, sentinel)
+        exp = None if r[0] is sentinel else [val.get(x) for x in r]
+        if exp is not None and any(e is None for e in exp):
+            continue
+        v_cases.append((text, exp))
+        ck.count('vec_text_cases')
+        ck.hist('vec_text_shape', f'{k} tokens {o.strip() or "-"}{c.strip() or "-"}')
+        if o or c:
+            ck.seen(('vectext', text))
+        # UVAxis.parse
+        k = ck.rng.choice([5, 5, 5, 5, 4, 6])
+        toks = [ck.rng.choice(pool) for _ in range(k)]
+        form = ck.rng.choice(['std', 'std', 'std', 'nobr', 'dbl', 'sp'])
+        if form == 'std' and k >= 4:
+            text = '[' + ' '.join(toks[:4]) + '] ' + ' '.join(toks[4:])
+        elif form == 'dbl' and k >= 4:
+            text = '[[' + ' '.join(toks[:4]) + ']] ' + ' '.join(toks[4:])
+        elif form == 'sp' and k >= 4:
+            text = ' [' + '  '.join(toks[:4]) + ']   ' + ' '.join(toks[4:]) + ' '
+        else:
+            text = ' '.join(toks)
+        try:
+            u = UVAxis.parse(text)
+            exp_u = [val.get(x) for x in (u.x, u.y, u.z, u.offset, u.scale)]
+            if any(e is None for e in exp_u):
+                continue
+        except (ValueError, IndexError):
+            exp_u = None
+        u_cases.append((text, exp_u))
+        ck.count('uvaxis_text_cases')
+        ck.seen(('uvtext', text))
+        # written text
+        f5 = [ck.rng.choice(pool) for _ in range(5)]
+        x5 = [float(t) for t in f5]
+        t_cases.append(('uv', [format_float(x) for x in x5], str(UVAxis(*x5))))
+        t_cases.append(('vec', [format_float(x) for x in x5[:3]], str(Vec(*x5[:3]))))
+        ang = Angle(*x5[2:])          # the constructor normalises to [0, 360): take the tokens from the object
+        t_cases.append(('vec', [format_float(ang.pitch), format_float(ang.yaw), format_float(ang.roll)], str(ang)))
+        ck.count('number_group_text_cases', 3)
+    ck.sample({'vec_text_case(text, parse_vec_str)': list(v_cases[2]), 'uvaxis_text_case(text, UVAxis.parse)': list(u_cases[2])})
+
+    def opt3(e: Any) -> str:
+        return 'None' if e is None else 'Some (' + ', '.join(coq_str(t) for t in e) + ')'
+
+    def optl(e: Any) -> str:
+        return 'None' if e is None else 'Some ' + coq_list(coq_str(t) for t in e)
+    lit_v = coq_list(f'({coq_str(t)}, {opt3(e)})' for t, e in v_cases[:500])
+    lit_u = coq_list(f'({coq_str(t)}, {optl(e)})' for t, e in u_cases[:500])
+    lit_t = coq_list(f'(({"true" if kd == "uv" else "false"}, {coq_list(coq_str(t) for t in toks)}), {coq_str(txt)})' for kd, toks, txt in t_cases[:500])
+    pre = PRE + '''Open Scope N_scope.
+Fixpoint nll_eqb (a b : list (list N)) : bool := match a, b with [], [] => true | x :: a', y :: b' => nl_eqb x y && nll_eqb a' b' | _, _ => false end.
+Definition chk3 (s : list N) : option (list N * list N * list N) := match parse_vec s with
+  | Some (x, y, z) => if (tok_ok x && tok_ok y && tok_ok z)%bool then Some (x, y, z) else None | None => None end.
+Definition chk5 (s : list N) : option (list (list N)) := match uv_parse s with Some l => if forallb tok_ok l then Some l else None | None => None end.
+'''
+    vals = ck.coq_eval(IMPORTS, [
+        f'bad_idx (fun c : list N * option (list N * list N * list N) => match chk3 (fst c), snd c with Some (x, y, z), Some (x2, y2, z2) => '
+        f'(nl_eqb x x2 && nl_eqb y y2 && nl_eqb z z2)%bool | None, None => true | _, _ => false end) 0%N {lit_v}',
+        f'bad_idx (fun c : list N * option (list (list N)) => match chk5 (fst c), snd c with Some a, Some b => nll_eqb a b | None, None => true '
+        f'| _, _ => false end) 0%N {lit_u}',
+        f'bad_idx (fun c : (bool * list (list N)) * list N => nl_eqb (if fst (fst c) then uv_text (snd (fst c)) else join_sp (snd (fst c))) (snd c)) '
+        f'0%N {lit_t}'], name='tok', preamble=pre)
+    if vals is None:
+        ck.obligation('correspondence:number_group_text', False, 'model could not be evaluated')
+        ck.tie_broken.append('correspondence number-group text: model evaluation failed')
+        return
+    bv, bu, bt = (parse_coq_N_list(v) for v in vals)
+    ck.obligation('correspondence:vec_text_parse', not bv, f'{min(len(v_cases), 500)} texts, Fmt/VmfTok.parse_vec vs math.parse_vec_str: {len(bv)} disagreements')
+    ck.obligation('correspondence:uvaxis_text_parse', not bu, f'{min(len(u_cases), 500)} texts, Fmt/VmfTok.uv_parse vs UVAxis.parse: {len(bu)} disagreements')
+    ck.obligation('correspondence:number_group_text_written', not bt, f'{min(len(t_cases), 500)} values, Fmt/VmfTok.uv_text / join_sp vs str(UVAxis) / '
+                  f'str(Vec) / str(Angle): {len(bt)} disagreements')
+    for name, bad, cases in (('vec_text_parse', bv, v_cases), ('uvaxis_text_parse', bu, u_cases), ('number_group_text_written', bt, t_cases)):
+        if bad:
+            ck.tie_broken.append(f'correspondence {name} (Fmt/VmfTok.v vs math.py / vmf.py)')
+            ck.extra[f'{name}_disagreement'] = repr(cases[bad[0]])
 
 
 def rich_spec(seed: int = 7) -> dict:
@@ -722,7 +820,7 @@ def run(ck: Ck) -> None:
         'str.split, str.join, int() on digit strings and str.casefold behave as modelled (split_on, join, parse_digits; casefold enters '
         'the theorems as the section variables is_inst / same_var)',
     ]
-    oks = [ck.translate(name, fn) for name, fn in {**T.GEN, **P.GEN}.items()]
+    oks = [ck.translate(name, fn) for name, fn in {**T.GEN, **P.GEN, **L.GEN}.items()]
     # C01's generated parser sites (read-only use of C01's translator): premise pcfg_ok of the block theorem
     oks.append(ck.translate('KVSer_gen', c01_kvser.translate))
     tr = ck.extra.get('translated', {})
@@ -773,6 +871,16 @@ def run(ck: Ck) -> None:
         obs['number_fields_complete'] = f'({len(REQUIRED_SIG6 | REQUIRED_EXACT)} <=? List.length num_fields)%nat'
         for f in nfields:
             ck.hist('number_format', '+'.join(sorted(set(f['fmts']))) + '->' + required_class(f['block'], f['key'], f['idx']))
+        # object level (round 3): every written key is read into exactly the attributes it was computed from; no attribute the
+        # reader fills is forgotten by the writer; displacement flag tables are inverse on every DispFlag value
+        lite = tr.get('VmfLite_gen', {}).get('classes', {})
+        for cname in sorted(lite):
+            obs[f'fields_paired:{cname}'] = f'lite_paired lite_{cname}'
+            obs[f'attrs_all_written:{cname}'] = f'lite_attrs_written lite_{cname}'
+            ck.hist('object_level_written_keys', cname, len(lite[cname]['written']))
+        obs['object_classes_complete'] = f'({len(L.CLASSES)} <=? List.length lite_classes)%nat'
+        obs['disp_flags_tables_inverse'] = 'flags_tables_ok gen_flags_written gen_flags_t2c gen_flags_sub gen_flags_count'
+        obs['disp_flags_all_values'] = '(16 <=? gen_flags_count)%nat'
         obs['output_field_count_and_recombination'] = '(Nat.eqb gen_out_exact_fields 5 && Nat.eqb gen_out_recombine_from 6)%bool'
         obs['output_field_order_agrees'] = ('(nlist_eqb gen_out_write_order (0 :: 1 :: 2 :: 3 :: 4 :: nil)%N && nlist_eqb gen_out_read_order (0 :: 1 :: 2 :: 3 :: 4 :: nil)%N)%bool')
         res = ck.instance_obligations(IMPORTS, obs, name='c06')
@@ -789,6 +897,7 @@ def run(ck: Ck) -> None:
         corr_escape(ck)
         corr_rounding(ck)
         corr_output_fixup(ck)
+        corr_tokens(ck)
         try:
             validate_tables(ck, tr.get('VmfTemplates_gen', {}), tr.get('VmfKeys_gen', {}))
         except Exception as e:     # the rich map itself may fail to export when the source is broken: the search reports that
@@ -805,9 +914,19 @@ def run(ck: Ck) -> None:
         ck.explain('instance:programs_all_ok')
     if any(k.startswith(('field:', 'text:', 'parse-error:', 'file:')) for k in keys):
         ck.explain('instance:keys_read:')
+        ck.explain('instance:fields_paired:')
+        ck.explain('instance:attrs_all_written:')
+        ck.explain('translate:VmfLite_gen')
         ck.explain('tie:')
     if any('multiblend' in k or 'alphablend' in k for k in keys):
         ck.explain('instance:optional_arrays_guard')
+    if any('disp.coll' in k or 'disp.subdiv' in k or 'dispinfo' in k for k in keys):
+        ck.explain('instance:disp_flags_')
+        ck.explain('translate:VmfFlags_gen')
+    if any(k.startswith(('field:', 'text:', 'file:', 'parse-error:')) for k in keys):
+        ck.explain('correspondence:vec_text_parse')
+        ck.explain('correspondence:uvaxis_text_parse')
+        ck.explain('correspondence:number_group_text_written')
     if any('isplacement' in k or 'disp' in k for k in keys):
         ck.explain('instance:disp_shape')
         ck.explain('instance:disp_arrays_complete')
